@@ -13,7 +13,7 @@
    classical logic (printed below).  NOT proved: the bound for composite computations (B-spline
    generation through several recursion levels, operator chains) - validated by the check. *)
 From Coq Require Import List NArith ZArith Arith Bool.
-From BSpl Require Import Scalar Outcome Support Poly Spline Ops Forms Generator Interp Spec Spec_Ops Spec_Gen Proofs_Support Proofs_Scalar Proofs_Poly Proofs_Binom Proofs_Eval Proofs_Outcome Proofs_Spline Proofs_Forms Proofs_Ops Proofs_Forms2 Proofs_Interp Proofs_Pred Proofs_Gen Instances Instances_Ext Proofs_Valid Solver Pool Quad Proofs_Pool Proofs_Quad Proofs_Sites Proofs_Rounded Proofs_Threads.
+From BSpl Require Import Scalar Outcome Support Poly Spline Ops Forms Generator Interp Spec Spec_Ops Spec_Gen Proofs_Support Proofs_Scalar Proofs_Poly Proofs_Binom Proofs_Eval Proofs_Outcome Proofs_Spline Proofs_Forms Proofs_Ops Proofs_Forms2 Proofs_Interp Proofs_Pred Proofs_Gen Instances Instances_Ext Proofs_Valid Solver Pool Quad Proofs_Pool Proofs_Quad Proofs_Rounded Proofs_Threads Proofs_Updates Examples Proofs_Examples Proofs_Analysis Proofs_Smooth Proofs_Laws.
 Import ListNotations.
 
 
@@ -30,10 +30,7 @@ Theorem C16_horner :
              (xm v : Rdefinitions.RbaseSymbolsImpl.R),
            @eval_interval Rdefinitions.RbaseSymbolsImpl.R (RndOps rnd) x c xm =
            @Ok Rdefinitions.RbaseSymbolsImpl.R v ->
-           Rdefinitions.Rle
-             (Rbasic_fun.Rabs
-                (Rdefinitions.Rminus v
-                   (@peval Rdefinitions.RbaseSymbolsImpl.R ExactOps c (Rdefinitions.Rminus x xm))))
+           Rdefinitions.Rle (Rbasic_fun.Rabs (Rdefinitions.Rminus v (pevalR c (Rdefinitions.Rminus x xm))))
              (Rdefinitions.RbaseSymbolsImpl.Rmult (gamma u (3 * @length Rdefinitions.RbaseSymbolsImpl.R c))
                 (pabs c (Rdefinitions.Rminus x xm))).
 Proof. exact (@Proofs_Rounded.horner_rounded_bound). Qed.
@@ -54,10 +51,7 @@ Theorem C16_horner_2n_bound_is_false :
                 @eval_interval Rdefinitions.RbaseSymbolsImpl.R (RndOps rnd) x c xm =
                 @Ok Rdefinitions.RbaseSymbolsImpl.R v /\
                 ~
-                Rdefinitions.Rle
-                  (Rbasic_fun.Rabs
-                     (Rdefinitions.Rminus v
-                        (@peval Rdefinitions.RbaseSymbolsImpl.R ExactOps c (Rdefinitions.Rminus x xm))))
+                Rdefinitions.Rle (Rbasic_fun.Rabs (Rdefinitions.Rminus v (pevalR c (Rdefinitions.Rminus x xm))))
                   (Rdefinitions.RbaseSymbolsImpl.Rmult (gamma u (2 * @length Rdefinitions.RbaseSymbolsImpl.R c))
                      (pabs c (Rdefinitions.Rminus x xm)))).
 Proof. exact (@Proofs_Rounded.horner_2n_bound_fails). Qed.
@@ -161,10 +155,7 @@ Theorem C16_horner_binary64 :
                 u64) (Rdefinitions.Rdiv (Rdefinitions.IZR 1) (Rdefinitions.IZR 2)) ->
            @eval_interval Rdefinitions.RbaseSymbolsImpl.R (RndOps rnd64) x c xm =
            @Ok Rdefinitions.RbaseSymbolsImpl.R v ->
-           Rdefinitions.Rle
-             (Rbasic_fun.Rabs
-                (Rdefinitions.Rminus v
-                   (@peval Rdefinitions.RbaseSymbolsImpl.R ExactOps c (Rdefinitions.Rminus x xm))))
+           Rdefinitions.Rle (Rbasic_fun.Rabs (Rdefinitions.Rminus v (pevalR c (Rdefinitions.Rminus x xm))))
              (Rdefinitions.RbaseSymbolsImpl.Rmult
                 (Rdefinitions.RbaseSymbolsImpl.Rmult
                    (Rdefinitions.RbaseSymbolsImpl.Rmult (Rdefinitions.IZR 2)
